@@ -1930,6 +1930,13 @@ impl RelayStatus {
     }
 }
 
+#[cfg(feature = "verif-hooks")]
+impl RelayStatus {
+    pub(crate) fn verif_is_connecting(&self) -> bool {
+        matches!(self.state, RelayConnectionState::Connecting)
+    }
+}
+
 /// Configuration of the relay servers for an [`Endpoint`].
 #[derive(Debug, Clone, PartialEq, Eq)]
 pub enum RelayMode {
